@@ -158,7 +158,7 @@ def _lc_project(s):
 PROPS = {
     'C01': {
         'id': 'C01', 'area': 'dp',
-        'theorems': ['Props.C01_consts', 'Props.C01_storage_at_msg', 'Props.C01_serial_at_msg', 'Props.C01_at_garbage'],
+        'theorems': ['Props.C01_storage_stream', 'Props.C01_serial_stream', 'Props.C01_consts', 'Props.C01_storage_at_msg', 'Props.C01_serial_at_msg', 'Props.C01_at_garbage'],
         'n_quick': 3000, 'n_thorough': 30000,
     },
     'C02': {
